@@ -318,8 +318,13 @@ def run(replay=None):
     if replay and 'locktime' in replay['case']:
         locktime.run_section(ck, thorough, replay)
         return ck.finish()
+    from harness import c02ht
+    if replay and 'ht_case' in replay['case']:
+        c02ht.run_section(ck, thorough, replay)
+        return ck.finish()
     if not replay:
         locktime.run_section(ck, thorough)
+        c02ht.run_section(ck, thorough)
     if replay:
         c = replay['case']
         jobs = [(c['seed'], [tuple(x) for x in c['kinds']], [c['steps']], c['network']) + ((c['grind'],) if c.get('grind') is not None else ())]
